@@ -1,5 +1,6 @@
 import PsyVerif.Model.MiniFIO
 import PsyVerif.Model.ArrayLower
+import PsyVerif.Model.SameRange
 open Proto MiniF C06
 
 def unName : UnOp → String
@@ -96,6 +97,54 @@ def showRes : Except Refusal Stmt → String
   | .ok s => s!"(ok {showStmt s})"
   | .error r => s!"(refuse {refusalName r})"
 
+/-! ## accesses (`Model/SameRange.lean`) -/
+
+def parseDim : Sexp → Option DimDecl
+  | .list [.atom "bounds", lo, hi] => do some (.bounds (← parseExpr lo) (← parseExpr hi))
+  | .list [.atom "lowerOnly", lo, g] => do some (.lowerOnly (← parseExpr lo) (← parseExpr g))
+  | .list [.atom "attribute", g] => do some (.attribute (← parseExpr g))
+  | .list [.atom "deferred", gl, gh] => do some (.deferred (← parseExpr gl) (← parseExpr gh))
+  | _ => none
+
+def parseBnd : Sexp → Option Bnd
+  | .list [.atom "lb", a, d] => do some (.lb (← a.nat?) (← d.nat?))
+  | .list [.atom "ub", a, d] => do some (.ub (← a.nat?) (← d.nat?))
+  | .list [.atom "e", x] => do some (.e (← parseExpr x))
+  | _ => none
+
+def parseIdx : Sexp → Option Idx
+  | .list [.atom "rng", s, t, p] => do some (.rng (← parseBnd s) (← parseBnd t) (← parseExpr p))
+  | .list [.atom "at", x] => do some (.at (← parseExpr x))
+  | _ => none
+
+def parseAcc : Sexp → Option Acc
+  | .list [.atom "acc", a, .list (.atom "shape" :: ds), .list (.atom "idx" :: is)] => do
+      some ⟨← a.nat?, ← ds.mapM parseDim, ← is.mapM parseIdx⟩
+  | _ => none
+
+/-- elementwise expression over ACCESSES: the sections are `Acc.toSec`, the accesses are collected -/
+partial def parseAExprA (D : Decls) : Sexp → Option (AExpr × List Acc)
+  | .list [.atom "sc", e] => do some (.sc (← parseExpr e), [])
+  | .list [.atom "aacc", a] => do
+      let acc ← parseAcc a
+      some (.sec (← acc.toSec D), [acc])
+  | .list [.atom "un", .atom op, e] => do
+      let (x, l) ← parseAExprA D e
+      some (.un (← unOpOf op) x, l)
+  | .list [.atom "bin", .atom op, a, b] => do
+      let (x, l1) ← parseAExprA D a
+      let (y, l2) ← parseAExprA D b
+      some (.bin (← binOpOf op) x y, l1 ++ l2)
+  | _ => none
+
+partial def accsOf : Sexp → List Acc
+  | .list [.atom "aacc", a] => (parseAcc a).toList
+  | .list xs => xs.flatMap accsOf
+  | _ => []
+
+def tri : Option Bool → String
+  | none => "crash" | some true => "t" | some false => "f"
+
 def bad : String := "bad-input"
 
 def handle (s : Sexp) : String :=
@@ -138,6 +187,20 @@ def handle (s : Sexp) : String :=
   | .list [.atom "acc", idx, arr, index, rhs, hole] =>
     (do let a : AccIn := ⟨← arr.nat?, ← parseExpr index, ← parseExpr rhs, ← hole.nat?⟩
         some s!"({showStmt (applyAcc (← idx.nat?) a)} {showStmt (accOrig a)})").getD bad
+  | .list [.atom "sr", fixed, sameStmt, a1, i1, a2, i2] =>
+    (do let f := (← fixed.nat?) != 0; let ss := (← sameStmt.nat?) != 0
+        let a1 ← parseAcc a1; let a2 ← parseAcc a2; let i1 ← i1.nat?; let i2 ← i2.nat?
+        some s!"(sr {tri (some (isLower linEq a1 i1))} {tri (some (isLower linEq a2 i2))} {tri (isUpper linEq a1 i1)} {tri (isUpper linEq a2 i2)} {tri (isFullRange linEq a1 i1)} {tri (isFullRange linEq a2 i2)} {tri (sameRange f linEq ss a1 i1 a2 i2)})").getD bad
+  | .list [.atom "eq", a, b] =>
+    (do some (tri (some (linEq (← parseExpr a) (← parseExpr b))))).getD bad
+  | .list [.atom "aaD", fixed, idx, lhs, rhs] =>
+    (do let f := (← fixed.nat?) != 0
+        let l ← parseAcc lhs
+        let all : List Acc := l :: accsOf rhs
+        let D : Decls := fun a => ((all.find? (fun (x : Acc) => x.arr == a)).map Acc.shape).getD []
+        let (e, accs) ← parseAExprA D rhs
+        let a : AAIn := ⟨← l.toSec D, e, false, false⟩
+        some (showRes (transAAacc D f linEq (← idx.nat?) l accs a))).getD bad
   | _ => "bad-op"
 
 def main : IO Unit := run handle
